@@ -1599,7 +1599,8 @@ std::string convert_to_string(std::ios_base::fmtflags flags, const integer<nbits
 		}
 	}
 	else {
-		using Integer = integer<nbits + 1, BlockType, NumberType>;  // nbits+1 to be able to represent maxneg in 2's complement form
+		// nbits+1 to be able to represent maxneg in 2's complement form, and at least one full block so that block10 below is representable
+		using Integer = integer<(nbits + 1 > 8 * sizeof(BlockType) ? nbits + 1 : 8 * sizeof(BlockType)), BlockType, NumberType>;
 
 		Integer t(n);
 		if constexpr (NumberType == IntegerNumberType::IntegerNumber) {
